@@ -21,13 +21,16 @@ type axis struct {
 }
 
 func (a *axis) getIndex(v float64) int {
-	index := int(math.Floor((v-a.start)/a.size)) + 1
-	if index < 0 {
-		index = 0
-	} else if index >= a.bins {
-		index = a.bins - 1
+	// clamp before converting to int: the result of converting a float64 that
+	// does not fit into an int (values far above the range, +Inf) is
+	// implementation-defined and ended up in the underflow bin
+	f := math.Floor((v-a.start)/a.size) + 1
+	if f >= float64(a.bins-1) {
+		return a.bins - 1
+	} else if f > 0 {
+		return int(f)
 	}
-	return index
+	return 0
 }
 
 type bin struct {
